@@ -57,6 +57,14 @@ class SchemaValidator:
                 "must provide an argument for schema, json_file_path, or json_string"
             )
 
+        # reset everything that was collected while validating a previous schema
+        self._psuedo_checkpoints = []
+        self._pipelines = {}
+        self._aggregated_fields = {}
+        self._type_details_at_path = {}
+        self._path_context = ""
+        self._context_path = None
+
         if isinstance(self.schema, dict):
             self.schema["imported_schemas"] = {}
             self._import_failures = []
